@@ -23,6 +23,27 @@ pub struct Viol {
     pub case: Value,
 }
 
+/// Per key: number of violating cases and the smallest one (ties broken by the case text, so the
+/// reported example does not depend on thread scheduling).
+#[derive(Default)]
+pub struct Viols(Mutex<BTreeMap<String, (u64, Viol)>>);
+impl Viols {
+    pub fn push(&self, v: Viol) {
+        let mut g = self.0.lock().unwrap();
+        match g.get_mut(&v.key) {
+            None => {
+                g.insert(v.key.clone(), (1, v));
+            }
+            Some(e) => {
+                e.0 += 1;
+                if v.size < e.1.size || (v.size == e.1.size && v.case.to_string() < e.1.case.to_string()) {
+                    e.1 = v;
+                }
+            }
+        }
+    }
+}
+
 fn eval_case(prop: &str, text: &str, do_modules: bool, thorough: bool) -> CaseOut {
     match prop {
         "C18" => props::c18_case(text),
@@ -32,7 +53,7 @@ fn eval_case(prop: &str, text: &str, do_modules: bool, thorough: bool) -> CaseOu
     }
 }
 
-fn program_family(rep: &mut Report, viols: &Mutex<Vec<Viol>>, machinery: &Mutex<Vec<String>>) {
+fn program_family(rep: &mut Report, viols: &Viols, machinery: &Mutex<Vec<String>>) {
     let prop = rep.property.clone();
     let thorough = rep.thorough();
     let fams = family::families(thorough);
@@ -77,7 +98,7 @@ fn program_family(rep: &mut Report, viols: &Mutex<Vec<Viol>>, machinery: &Mutex<
                         st.sample(|| json!({"family": fam.name, "program": text, "outcome": out.tag}));
                     }
                     for (key, what) in out.viols {
-                        viols.lock().unwrap().push(Viol {
+                        viols.push(Viol {
                             key,
                             what,
                             size: p.kinds.len() * 1000 + p.refs.len() * 100 + text.len(),
@@ -156,7 +177,7 @@ fn main() {
         std::process::exit(0);
     }
     let mut rep = Report::new(&cli.property, &cli.tier, "vf_dfir_graph");
-    let viols: Mutex<Vec<Viol>> = Mutex::new(vec![]);
+    let viols = Viols::default();
     let machinery: Mutex<Vec<String>> = Mutex::new(vec![]);
     match cli.property.as_str() {
         "COUNT" => {
@@ -229,27 +250,17 @@ fn main() {
         std::process::exit(2);
     }
     // Smallest case per key, re-executed before it is reported.
-    let mut vs = viols.into_inner().unwrap();
-    vs.sort_by(|a, b| (&a.key, a.size, a.case.to_string()).cmp(&(&b.key, b.size, b.case.to_string())));
-    let mut counts: BTreeMap<String, u64> = BTreeMap::new();
-    for v in &vs {
-        *counts.entry(v.key.clone()).or_default() += 1;
-    }
+    let vs = viols.0.into_inner().unwrap();
     let mut st = Stats::new();
-    let mut done: Vec<String> = vec![];
-    for v in &vs {
-        if done.contains(&v.key) {
-            st.violations_total += 1;
-            continue;
-        }
-        done.push(v.key.clone());
+    for (key, (count, v)) in &vs {
         let again = replay_case(&v.case);
-        if !again.iter().any(|(k, _)| *k == v.key) {
-            println!("MACHINERY-ERROR: violation `{}` did not reproduce on re-execution", v.key);
+        if !again.iter().any(|(k, _)| k == key) {
+            println!("MACHINERY-ERROR: violation `{key}` did not reproduce on re-execution");
             std::process::exit(2);
         }
-        println!("violation class `{}`: {} cases; smallest:\n{}", v.key, counts[&v.key], v.what);
-        st.violation(v.key.clone(), v.what.clone(), v.case.clone());
+        println!("violation class `{key}`: {count} cases; smallest:\n{}", v.what);
+        st.violation(key.clone(), v.what.clone(), v.case.clone());
+        st.violations_total += count - 1;
     }
     rep.section("violations", st);
     rep.finish();
